@@ -398,3 +398,280 @@ Theorem list_items_noq l : nonul l = true -> noq l = true -> list_items 44 l = e
 Proof.
   intros Hz Hq. unfold list_items. rewrite (c_str_nonul l Hz). apply items_step_x; [exact Hq|lia].
 Qed.
+
+(* ================= text with a DQUOTE: some item / element contains it ================= *)
+Lemma scan_props n : forall l q acc, (length l <= n)%nat ->
+  fst (scan_item 44 q l acc) ++ snd (scan_item 44 q l acc) = rev acc ++ l /\
+  (length (snd (scan_item 44 q l acc)) <= length l)%nat.
+Proof.
+  induction n as [|n IH]; intros l q acc Hlen.
+  - destruct l; [|cbn in Hlen; lia]. cbn. split; [reflexivity|lia].
+  - destruct l as [|c r]; [cbn; split; [reflexivity|lia]|].
+    cbn [length] in Hlen. assert (Hr : (length r <= n)%nat) by lia.
+    cbn [scan_item]. destruct q.
+    + destruct (c =? 34)%N.
+      { destruct (IH r false (c :: acc) Hr) as [H1 H2]. rewrite H1. cbn [rev length]. rewrite <- app_assoc. split; [reflexivity|lia]. }
+      destruct (c =? 92)%N.
+      { destruct r as [|d r'].
+        - cbn [fst snd rev app length]. rewrite app_nil_r. split; [reflexivity|lia].
+        - cbn [length] in Hr. destruct (IH r' true (d :: c :: acc) ltac:(lia)) as [H1 H2]. rewrite H1.
+          cbn [rev length]. rewrite <- !app_assoc. split; [reflexivity|lia]. }
+      destruct (IH r true (c :: acc) Hr) as [H1 H2]. rewrite H1. cbn [rev length]. rewrite <- app_assoc. split; [reflexivity|lia].
+    + destruct (c =? 34)%N.
+      { destruct (IH r true (c :: acc) Hr) as [H1 H2]. rewrite H1. cbn [rev length]. rewrite <- app_assoc. split; [reflexivity|lia]. }
+      destruct ((c =? 44)%N || (c =? 44)%N).
+      { cbn [fst snd length]. split; [reflexivity|lia]. }
+      destruct (IH r false (c :: acc) Hr) as [H1 H2]. rewrite H1. cbn [rev length]. rewrite <- app_assoc. split; [reflexivity|lia].
+Qed.
+
+Lemma scan_first c r : (c =? 44)%N = false ->
+  (length (snd (scan_item 44 false (c :: r) [])) <= length r)%nat.
+Proof.
+  intros H. cbn [scan_item]. rewrite H. cbn [orb].
+  destruct (c =? 34)%N; apply (scan_props (length r)); lia.
+Qed.
+
+Lemma drop_while_keeps (p : N -> bool) x m : In x m -> p x = false -> In x (drop_while p m).
+Proof.
+  induction m as [|y m IH]; intros Hin Hp; [contradiction|]. cbn [drop_while].
+  destruct (p y) eqn:E; [|exact Hin]. destruct Hin as [<-|Hin]; [congruence|]. now apply IH.
+Qed.
+
+Lemma rtrim_keeps x l : In x l -> is_xspace x = false -> In x (rtrim l).
+Proof.
+  intros Hin Hp. unfold rtrim. apply (proj1 (in_rev _ x)). apply drop_while_keeps; [|exact Hp].
+  apply (proj1 (in_rev _ x)). exact Hin.
+Qed.
+
+Lemma trim_x_keeps x l : In x l -> is_xspace x = false -> In x (trim_x l).
+Proof.
+  intros Hin Hp. unfold trim_x. apply (proj1 (in_rev _ x)). apply drop_while_keeps; [|exact Hp].
+  apply (proj1 (in_rev _ x)). now apply drop_while_keeps.
+Qed.
+
+Lemma items_quote f : forall l, In 34%N l -> (length l <= f)%nat ->
+  exists it, In it (items_fuel (S f) 44 l) /\ In 34%N it.
+Proof.
+  induction f as [|f IH]; intros l Hin Hlen.
+  { destruct l; [contradiction|cbn in Hlen; lia]. }
+  rewrite items_fuel_S. cbn zeta.
+  pose proof (drop_while_keeps (is_delim2 44) 34%N l Hin eq_refl) as Hin1.
+  pose proof (drop_while_len (is_delim2 44) l) as Hl1.
+  pose proof (drop_while_head (is_delim2 44) l) as Hhead.
+  set (l1 := drop_while (is_delim2 44) l) in *. clearbody l1.
+  destruct l1 as [|c r]; [contradiction|].
+  rewrite (delim2_all c) in Hhead. apply orb_false_elim in Hhead as [Hcx Hc44].
+  pose proof (scan_props (length (c :: r)) (c :: r) false [] ltac:(lia)) as [Happ _].
+  pose proof (scan_first c r Hc44) as Hrest.
+  destruct (scan_item 44 false (c :: r) []) as [item rest]. cbn [fst snd rev app] in *.
+  assert (Hitem : exists item', item = c :: item').
+  { destruct item as [|i0 item'].
+    - cbn [app] in Happ. subst rest. cbn [length] in Hrest. lia.
+    - cbn [app] in Happ. injection Happ as -> _. now exists item'. }
+  destruct Hitem as (item' & ->).
+  unfold rtrim. destruct (rev (drop_while is_xspace (rev (c :: item')))) as [|i0 it] eqn:Eit.
+  { exfalso. exact (rtrim_keeps_head c item' Hcx Eit). }
+  rewrite <- Happ in Hin1. apply in_app_or in Hin1. destruct Hin1 as [Hi|Hr].
+  - exists (i0 :: it). split; [now left|]. rewrite <- Eit. apply (rtrim_keeps 34%N (c :: item') Hi eq_refl).
+  - cbn [length] in Hlen, Hl1. destruct (IH rest Hr ltac:(lia)) as (x & Hx & Hq).
+    exists x. split; [now right|exact Hq].
+Qed.
+
+Lemma split_on_in d x : forall l cur, In x (rev cur ++ l) -> x <> d ->
+  exists piece, In piece (split_on d l cur) /\ In x piece.
+Proof.
+  induction l as [|c r IH]; intros cur Hin Hd; cbn [split_on].
+  - rewrite app_nil_r in Hin. exists (rev cur). split; [now left|exact Hin].
+  - destruct (c =? d)%N eqn:E.
+    + apply N.eqb_eq in E. subst c. apply in_app_or in Hin. destruct Hin as [Hc|[Hx|Hr]].
+      * exists (rev cur). split; [now left|exact Hc].
+      * congruence.
+      * destruct (IH [] Hr Hd) as (pc & Hp & Hxp). exists pc. split; [now right|exact Hxp].
+    + apply IH; [|exact Hd]. cbn [rev]. rewrite <- app_assoc. exact Hin.
+Qed.
+
+Lemma elements_quote l : In 34%N l -> exists el, In el (elements l) /\ In 34%N el.
+Proof.
+  intros Hin. destruct (split_on_in 44%N 34%N l [] Hin ltac:(discriminate)) as (pc & Hp & Hx).
+  exists (trim_x pc). pose proof (trim_x_keeps 34%N pc Hx eq_refl) as Hk. split; [|exact Hk].
+  unfold elements. apply filter_In. split; [now apply in_map|].
+  destruct (trim_x pc); [contradiction|reflexivity].
+Qed.
+
+Lemma pos_value_bad x ds : In x ds -> is_digit x = false -> pos_value ds = None.
+Proof.
+  intros Hin Hd. unfold pos_value. destruct ds as [|c r]; [reflexivity|].
+  assert (forallb is_digit (c :: r) = false) as ->; [|reflexivity].
+  destruct (forallb is_digit (c :: r)) eqn:E; [|reflexivity]. rewrite forallb_forall in E. rewrite (E x Hin) in Hd. discriminate.
+Qed.
+
+Lemma spec_of_text_quote el : In 34%N el -> spec_of_text el = None.
+Proof.
+  intros Hin. unfold spec_of_text. destruct el as [|c r]; [reflexivity|].
+  destruct (c =? 45)%N eqn:E45.
+  - destruct Hin as [Hc|Hr]; [subst c; discriminate|]. now rewrite (pos_value_bad 34%N r Hr eq_refl).
+  - pose proof (span_app (fun c0 => negb (c0 =? 45)%N) (c :: r)) as Happ.
+    pose proof (span_stop (fun c0 => negb (c0 =? 45)%N) (c :: r)) as Hstop.
+    destruct (span (fun c0 => negb (c0 =? 45)%N) (c :: r)) as [a rest]. cbn [fst snd] in *.
+    destruct rest as [|d b]; [reflexivity|].
+    rewrite <- Happ in Hin. apply in_app_or in Hin. destruct Hin as [Ha|Hb].
+    + now rewrite (pos_value_bad 34%N a Ha eq_refl).
+    + destruct Hb as [Hd|Hb]; [subst d; discriminate|].
+      destruct (pos_value a); [|reflexivity]. destruct b as [|e b']; [contradiction|].
+      now rewrite (pos_value_bad 34%N (e :: b') Hb eq_refl).
+Qed.
+
+Lemma all_some_none {A B} (f : A -> option B) l x : In x l -> f x = None -> all_some (map f l) = None.
+Proof.
+  induction l as [|y l IH]; intros Hin Hf; [contradiction|]. cbn [map all_some].
+  destruct Hin as [->|Hin]; [now rewrite Hf|]. destruct (f y); [|reflexivity]. now rewrite (IH Hin Hf).
+Qed.
+
+Lemma noq_or_quote l : noq l = true \/ In 34%N l.
+Proof.
+  induction l as [|c r IH]; [now left|]. cbn [noq forallb]. destruct (c =? 34)%N eqn:E.
+  - right. left. apply N.eqb_eq in E. now subst.
+  - destruct IH as [H|H]; [left; exact H|right; now right].
+Qed.
+
+(* whatever the text, Squid's item loop and the comma split agree on validity and on the specs *)
+Theorem items_vs_elements l : nonul l = true ->
+  all_some (map spec_of_text (list_items 44 l)) = all_some (map spec_of_text (elements l)).
+Proof.
+  intros Hz. destruct (noq_or_quote l) as [Hq|Hq].
+  - now rewrite (list_items_noq l Hz Hq).
+  - assert (H1 : all_some (map spec_of_text (list_items 44 l)) = None).
+    { unfold list_items. rewrite (c_str_nonul l Hz).
+      destruct (items_quote (length l) l Hq ltac:(lia)) as (it & Hin & H34).
+      exact (all_some_none spec_of_text _ it Hin (spec_of_text_quote it H34)). }
+    destruct (elements_quote l Hq) as (el & Hin & H34).
+    now rewrite H1, (all_some_none spec_of_text _ el Hin (spec_of_text_quote el H34)).
+Qed.
+
+(* ================= HttpHdrRange::parseInit ================= *)
+Lemma parse_items_spec items : forall acc,
+  parse_items items acc false =
+  (match all_some (map spec_of_text items) with Some l => rev acc ++ map repr l | None => [] end, false).
+Proof.
+  induction items as [|it r IH]; intros acc; cbn [parse_items map all_some].
+  - now rewrite app_nil_r.
+  - rewrite (spec_parse_spec it). destruct (spec_of_text it) as [s|]; [|reflexivity].
+    cbn [orb]. rewrite IH. destruct (all_some (map spec_of_text r)) as [l|]; [|reflexivity].
+    cbn [rev map]. now rewrite <- app_assoc.
+Qed.
+
+Theorem range_parse_spec value :
+  range_parse value = (match header_specs value with Some l => Some (map repr l) | None => None end, false).
+Proof.
+  unfold range_parse, header_specs.
+  pose proof (c_str_is_nonul value) as Hz. set (s := c_str value) in *. clearbody s.
+  destruct s as [|c0 s']; [reflexivity|].
+  destruct (ci_eqb (takeN 6 (c0 :: s')) bytes_eq); [|reflexivity]. cbn [negb].
+  rewrite parse_items_spec. cbn [rev app].
+  rewrite (items_vs_elements _ (nonul_dropN 6 _ Hz)).
+  destruct (all_some (map spec_of_text (elements (dropN 6 (c0 :: s'))))) as [[|x l]|]; reflexivity.
+Qed.
+
+(* ================= canonize ================= *)
+Definition valid_spec (s : rspec) : Prop :=
+  match s with
+  | RSuffix n => 0 <= n <= int64_max
+  | RFrom a => 0 <= a <= int64_max
+  | RRange a b => 0 <= a <= b /\ b <= int64_max
+  end.
+
+Lemma spec_of_text_valid el s : spec_of_text el = Some s -> valid_spec s.
+Proof.
+  unfold spec_of_text. destruct el as [|c r]; [discriminate|].
+  destruct (c =? 45)%N.
+  - destruct (pos_value r) as [n|] eqn:E; [|discriminate]. intros [= <-]. apply pos_value_range in E. cbn [valid_spec]. lia.
+  - destruct (span _ (c :: r)) as [a rest]. destruct rest as [|d b]; [discriminate|].
+    destruct (pos_value a) as [x|] eqn:Ea; [|discriminate]. apply pos_value_range in Ea.
+    destruct b as [|e b']; [intros [= <-]; cbn [valid_spec]; lia|].
+    destruct (pos_value (e :: b')) as [y|] eqn:Eb; [|discriminate]. apply pos_value_range in Eb.
+    destruct (y <? x) eqn:E; [discriminate|]. intros [= <-]. cbn [valid_spec]. lia.
+Qed.
+
+Lemma add64_ok a b : - two63 <= a + b <= int64_max -> add64 a b = (a + b, false).
+Proof. intros H. unfold add64, fits64. rewrite (wrap64_small _ H). f_equal. unfold int64_max in *. lia. Qed.
+Lemma sub64_ok a b : - two63 <= a - b <= int64_max -> sub64 a b = (a - b, false).
+Proof. intros H. unfold sub64, fits64. rewrite (wrap64_small _ H). f_equal. unfold int64_max in *. lia. Qed.
+
+Lemma rng_size_i64_gen s e : 0 <= s -> e <= int64_max ->
+  rng_size_i64 (s, e) = (if e >? s then e - s else 0, false).
+Proof.
+  intros Hs He. destruct (e >? s) eqn:E; [apply rng_size_i64_ok; lia|apply rng_size_i64_empty; lia].
+Qed.
+
+Definition in_canon (c : Z * Z) (p : Z) : Prop := fst c <= p < fst c + snd c.
+
+(* one spec: canonize keeps it iff it selects a byte, and then the canonical range is exactly its byte set *)
+Theorem spec_canonize_spec clen s : valid_spec s -> -1 <= clen <= int64_max ->
+  let '(c, good, ub) := spec_canonize clen (repr s) in
+  ub = false /\
+  (good = true -> 0 <= fst c /\ 0 < snd c /\ fst c + snd c <= clen /\ forall p, in_canon c p <-> wants clen s p) /\
+  (good = false -> forall p, ~ wants clen s p).
+Proof.
+  intros Hv Hc. unfold spec_canonize, in_canon, wants.
+  assert (H63 : two63 = 9223372036854775808) by reflexivity.
+  destruct s as [n|a|a b]; cbn [valid_spec] in Hv; cbn [repr].
+  - (* suffix *)
+    change (known_spec (-1)) with false. cbn [negb].
+    rewrite (sub64_ok clen n) by (unfold int64_max in *; lia).
+    unfold rng_intersection. cbn [fst snd].
+    assert (Hk : known_spec n = true) by (unfold known_spec, unknown_pos; lia). rewrite Hk.
+    assert (Hk2 : known_spec (Z.max 0 (clen - n)) = true) by (unfold known_spec, unknown_pos; lia). rewrite Hk2.
+    rewrite (add64_ok (Z.max 0 (clen - n)) n) by (unfold int64_max in *; lia).
+    rewrite rng_size_i64_gen by (unfold int64_max in *; lia). cbn [negb orb fst snd].
+    split; [reflexivity|].
+    destruct (Z.min clen (Z.max 0 (clen - n) + n) >? Z.max 0 (Z.max 0 (clen - n))) eqn:E.
+    + split; [|intros Hg; exfalso; lia]. intros _. repeat split; try lia.
+    + split; [intros Hg; exfalso; lia|]. intros _ p. lia.
+  - (* first-byte-pos only *)
+    assert (Hk : known_spec a = true) by (unfold known_spec, unknown_pos; lia). rewrite Hk.
+    change (known_spec (-1)) with false. cbn [negb].
+    unfold rng_intersection. cbn [fst snd].
+    rewrite rng_size_i64_gen by (unfold int64_max in *; lia).
+    set (l1 := if Z.min clen clen >? Z.max 0 a then Z.min clen clen - Z.max 0 a else 0).
+    assert (Hl1 : 0 <= l1 /\ a + l1 <= int64_max) by (unfold l1, int64_max in *; destruct (Z.min clen clen >? Z.max 0 a) eqn:E; lia).
+    assert (Hk1 : known_spec l1 = true) by (unfold known_spec, unknown_pos; lia). rewrite Hk1, Hk.
+    rewrite (add64_ok a l1) by (unfold int64_max in *; lia).
+    rewrite rng_size_i64_gen by (unfold int64_max in *; lia). cbn [negb orb fst snd].
+    split; [reflexivity|]. unfold l1.
+    destruct (Z.min clen clen >? Z.max 0 a) eqn:E1;
+      destruct (Z.min clen (a + _) >? Z.max 0 a) eqn:E2.
+    + split; [|intros Hg; exfalso; lia]. intros _. repeat split; try lia.
+    + split; [intros Hg; exfalso; lia|]. intros _ p. lia.
+    + split; [|intros Hg; exfalso; lia]. intros _. repeat split; try lia.
+    + split; [intros Hg; exfalso; lia|]. intros _ p. lia.
+  - (* first-last *)
+    destruct (b <? int64_max) eqn:Eb.
+    + assert (Hk : known_spec a = true) by (unfold known_spec, unknown_pos; lia). rewrite Hk.
+      assert (Hk1 : known_spec (b + 1 - a) = true) by (unfold known_spec, unknown_pos; lia). rewrite Hk1.
+      cbn [negb]. rewrite Hk1, Hk.
+      rewrite (add64_ok a (b + 1 - a)) by (unfold int64_max in *; lia).
+      unfold rng_intersection. cbn [fst snd].
+      rewrite rng_size_i64_gen by (unfold int64_max in *; lia). cbn [negb orb fst snd].
+      split; [reflexivity|].
+      destruct (Z.min clen (a + (b + 1 - a)) >? Z.max 0 a) eqn:E.
+      * split; [|intros Hg; exfalso; lia]. intros _. repeat split; try lia.
+      * split; [intros Hg; exfalso; lia|]. intros _ p. lia.
+    + (* last-byte-pos = INT64_MAX: kept open-ended *)
+      assert (Hb : b = int64_max) by lia.
+      assert (Hk : known_spec a = true) by (unfold known_spec, unknown_pos; lia). rewrite Hk.
+      change (known_spec (-1)) with false. cbn [negb].
+      unfold rng_intersection. cbn [fst snd].
+      rewrite rng_size_i64_gen by (unfold int64_max in *; lia).
+      set (l1 := if Z.min clen clen >? Z.max 0 a then Z.min clen clen - Z.max 0 a else 0).
+      assert (Hl1 : 0 <= l1 /\ a + l1 <= int64_max) by (unfold l1, int64_max in *; destruct (Z.min clen clen >? Z.max 0 a) eqn:E; lia).
+      assert (Hk1 : known_spec l1 = true) by (unfold known_spec, unknown_pos; lia). rewrite Hk1, Hk.
+      rewrite (add64_ok a l1) by (unfold int64_max in *; lia).
+      rewrite rng_size_i64_gen by (unfold int64_max in *; lia). cbn [negb orb fst snd].
+      split; [reflexivity|]. unfold l1.
+      destruct (Z.min clen clen >? Z.max 0 a) eqn:E1;
+        destruct (Z.min clen (a + _) >? Z.max 0 a) eqn:E2.
+      * split; [|intros Hg; exfalso; lia]. intros _. repeat split; try lia.
+      * split; [intros Hg; exfalso; lia|]. intros _ p. lia.
+      * split; [|intros Hg; exfalso; lia]. intros _. repeat split; try lia.
+      * split; [intros Hg; exfalso; lia|]. intros _ p. lia.
+Qed.
